@@ -338,7 +338,7 @@ class Evolver:
             # productions that once exposed a defect (kept as a standing floor)
             "message-no-typename", "rust-keyword-name", "base-regexp", "empty-struct-property", "request-no-typename",
             "matrix", "same-name-different-nullness", "shared-registration-method", "diamond",
-            "message-regopts-no-params", "explicit-closed-enum", "and-registration-options", "deep-mixin", "confusing-message-names", "exotic-enum-values", "message-map-keys", "marked-everything", "alias-shapes", "declares-response-error", "method-mentions-request", "literal-name-collision", "big-declarations", "case-only-names", "mutual-recursion"]
+            "message-regopts-no-params", "explicit-closed-enum", "and-registration-options", "deep-mixin", "confusing-message-names", "exotic-enum-values", "message-map-keys", "marked-everything", "alias-shapes", "declares-response-error", "method-mentions-request", "literal-name-collision", "big-declarations", "case-only-names", "mutual-recursion", "digit-names"]
     RUST_AND_PYTHON_KEYWORDS = ["in", "for", "as", "if", "else", "while", "continue", "break", "return", "async", "await", "try", "yield"]
 
     MATRIX_PRODUCTIONS = ["base", "ref-struct", "ref-enum", "ref-alias", "array", "map", "tuple", "ornull-first", "ornull-last", "literal",
@@ -517,6 +517,26 @@ class Evolver:
         if focus == "message-regopts-no-params":
             self.e_new_message(is_request=True, registration="own", params=False)
             return self.e_new_message(is_request=False, registration="own", params=False)
+        if focus == "digit-names":
+            # property names whose words end in digits or are one letter long (utf8Offset, is64Bit, point3D, xRange)
+            name = self.fresh_type_name("VfDigits")
+            S_, N_ = {"kind": "base", "name": "string"}, {"kind": "base", "name": "null"}
+            props = [{"name": "utf8Offset", "type": {"kind": "base", "name": "uinteger"}},
+                     {"name": "utf16Offset", "type": {"kind": "base", "name": "uinteger"}, "optional": True},
+                     {"name": "is64Bit", "type": {"kind": "base", "name": "boolean"}, "optional": True},
+                     {"name": "sha256Digest", "type": {"kind": "or", "items": [S_, N_]}},
+                     {"name": "point3D", "type": {"kind": "tuple", "items": [{"kind": "base", "name": "integer"}] * 3}, "optional": True},
+                     {"name": "xRange", "type": {"kind": "reference", "name": "Range"}, "optional": True},
+                     {"name": "v2Beta", "type": {"kind": "stringLiteral", "value": "v2"}},
+                     {"name": "base64", "type": S_, "optional": True}]
+            props = [p_ for p_ in props if p_["name"] not in self.taken_props]
+            self.doc["structures"].append({"name": name, "properties": props})
+            self.new_structs.append(name)
+            self.counter += 1
+            self.doc["notifications"].append({"method": f"vf/digits{self.counter}", "messageDirection": "both", "params": {"kind": "reference", "name": name}})
+            self.edits.append({"edit": "E1-new-structure", "name": name, "properties": [p_["name"] for p_ in props]})
+            self.edits.append({"edit": "E6-new-message", "method": f"vf/digits{self.counter}", "request": False})
+            return
         if focus == "case-only-names":
             # names that differ from existing ones in letter case only (one file on a case-insensitive file system)
             structs = [s["name"] for s in self.doc["structures"] if sum(c.isupper() for c in s["name"]) >= 2 and not s["name"].startswith("_")]
